@@ -427,7 +427,7 @@ func runEnvFirst(p *Program, r *RuleResult) {
 				if prm, isPrm := val.(*ssa.Parameter); isPrm {
 					for i, q := range fn.Params {
 						if q == prm && i < len(ph.Common().Args) {
-							bview, before, val = p.View(drv.Driver), ph, origin(ph.Common().Args[i])
+							bview, before, val = p.View(drv.PhaseFn), ph, origin(ph.Common().Args[i])
 						}
 					}
 				}
@@ -475,8 +475,59 @@ func runAnnotations(p *Program, r *RuleResult) {
 		call ssa.Instruction
 	}
 	found := map[string][]coll{}
+	// the phase functions, and helpers of theirs whose error the phase hands back (a block of
+	// a phase moved into a function of its own)
+	var scan []*ssa.Function
+	inScan := map[*ssa.Function]bool{}
 	for _, ph := range drv.Phases {
 		fn := ph.Common().StaticCallee()
+		if !inScan[fn] {
+			inScan[fn] = true
+			scan = append(scan, fn)
+		}
+		pview := p.View(fn)
+		for _, c := range p.callsIn(fn) {
+			call, ok := c.(*ssa.Call)
+			if !ok {
+				continue
+			}
+			h := call.Common().StaticCallee()
+			if h == nil || inScan[h] || !p.isFirstParty(h) || h.Blocks == nil || h.Pkg != fn.Pkg {
+				continue
+			}
+			res := h.Signature.Results()
+			if res.Len() == 0 || !isErrorType(res.At(res.Len()-1).Type()) {
+				continue
+			}
+			var errV ssa.Value = call
+			if res.Len() > 1 {
+				errV = nil
+				for _, u := range *call.Referrers() {
+					if ex, ok := u.(*ssa.Extract); ok && ex.Index == res.Len()-1 {
+						errV = ex
+					}
+				}
+			}
+			if errV == nil {
+				continue
+			}
+			handedBack := false
+			for _, b := range pview.Blocks() {
+				if !pview.holdsAt(b, errV, factNonNil) {
+					continue
+				}
+				ins := pview.Instrs(b)
+				if ret, ok := ins[len(ins)-1].(*ssa.Return); ok && len(ret.Results) == 1 && (ret.Results[0] == errV || isErrorValue(ret.Results[0], pview, b, map[ssa.Value]bool{})) {
+					handedBack = true
+				}
+			}
+			if handedBack {
+				inScan[h] = true
+				scan = append(scan, h)
+			}
+		}
+	}
+	for _, fn := range scan {
 		for _, c := range p.callsIn(fn) {
 			call, ok := c.(*ssa.Call)
 			if !ok {
@@ -554,7 +605,7 @@ func runAnnotations(p *Program, r *RuleResult) {
 				for _, b := range view.Blocks() {
 					if view.holdsAt(b, call, factNonNil) {
 						ins := view.Instrs(b)
-						if ret, ok := ins[len(ins)-1].(*ssa.Return); ok && isErrorValue(ret.Results[0], view, b, map[ssa.Value]bool{}) {
+						if ret, ok := ins[len(ins)-1].(*ssa.Return); ok && len(ret.Results) > 0 && isErrorValue(ret.Results[len(ret.Results)-1], view, b, map[ssa.Value]bool{}) {
 							okCheck = true
 						}
 					}
